@@ -93,6 +93,15 @@ def ev(v, val, hooks=None):
             return all(ev(x, val, hooks) for x in a)
         if op == 'or':
             return any(ev(x, val, hooks) for x in a)
+        if op == 'call' and a[0] == 'dict':
+            pos = [ev(x, val, hooks) for x in a[1:]
+                   if not (isinstance(x, T) and x.op == 'kw')]
+            kw = {x.args[0]: ev(x.args[1], val, hooks) for x in a[1:]
+                  if isinstance(x, T) and x.op == 'kw'}
+            try:
+                return dict(*pos, **kw)
+            except (TypeError, ValueError) as e:
+                raise Raised(type(e).__name__)
         if op == 'call':
             name = a[0]
             args = [ev(x, val, hooks) for x in a[1:]]
